@@ -250,15 +250,15 @@ pub fn run(tier: Tier) -> i32 {
     let mut rep = Report::new("C08", tier, "model_checking");
     let deadline = Deadline::after(Duration::from_secs(tier.pick(55, 3300)));
     let ts: &[usize] = match tier {
-        Tier::Quick => &[64, 70, 256],
-        Tier::Thorough => &[64, 70, 250, 256, 1024, 4096],
+        Tier::Quick => &[64, 70, 256, 1000],
+        Tier::Thorough => &[64, 70, 250, 256, 1000, 1024, 4096],
     };
     let mut cfgs: Vec<SorterCfg> = Vec::new();
     for &t in ts {
         for realloc in [true, false] {
             let initials: Vec<usize> = if realloc { vec![16, t / 4 + t % 16, t] } else { vec![t] };
             for initial in initials {
-                for chunks in 1..=4usize {
+                for chunks in (1..=4usize).filter(|c| t < 1000 || tier == Tier::Thorough || *c == 1 || *c == 3) {
                     let mut c = SorterCfg::scaled(t, initial.max(16), realloc, chunks, false);
                     c.creator = 2;
                     cfgs.push(c);
